@@ -70,7 +70,7 @@ func SendPing(ctx context.Context, s NetcForPing, target string, hopsToLive byte
 				err:      err,
 				fromNode: fromNode,
 			}:
-			case <-ctx.Done():
+			case <-ctxPing.Done():
 			case <-s.Context().Done():
 			}
 		}
